@@ -1100,12 +1100,17 @@ func genLaneBodies(handlers []*lfHandler) {
 		archs[ar.name] = a
 	}
 	var results []*lbResult
+	var memFacts []*lbMemFact
 	for _, h := range handlers {
-		results = append(results, archs[h.arch].translate(h))
+		res := archs[h.arch].translate(h)
+		results = append(results, res)
+		if lbMemoryFiles[filepath.Base(h.file)] {
+			memFacts = append(memFacts, archs[h.arch].memFact(h))
+		}
 	}
 	var b strings.Builder
 	b.WriteString("-- GENERATED by /verif/translate (lanebody.go) from amd/emu/aluv*.go and amd/emu/cdna3/v*.go; do not edit\n")
-	b.WriteString("import MgpuModel.C06_Body\nset_option linter.unusedVariables false\nnamespace Gen.Lane\nopen C06\n\n")
+	b.WriteString("import MgpuModel.C06_Body\nimport MgpuModel.C06_Mem\nset_option linter.unusedVariables false\nnamespace Gen.Lane\nopen C06\n\n")
 	for _, an := range []string{"gcn3", "cdna3"} {
 		a := archs[an]
 		for _, p := range a.pureOrder {
@@ -1168,7 +1173,9 @@ func genLaneBodies(handlers []*lfHandler) {
 		}
 		fmt.Fprintf(&b, "  ⟨%s, %s, %s⟩%s\n", leanStr(r.arch), leanStr(r.name), cov, sep)
 	}
-	b.WriteString("]\n\nend Gen.Lane\n")
+	b.WriteString("]\n\n")
+	lbWriteMemFacts(&b, memFacts)
+	b.WriteString("end Gen.Lane\n")
 	writeIfChanged("LaneBodies.lean", b.String())
 	var cs []string
 	for c, k := range counts {
@@ -1176,4 +1183,198 @@ func genLaneBodies(handlers []*lfHandler) {
 	}
 	sort.Strings(cs)
 	fmt.Printf("NOTE lanebody: %d records: %s\n", len(results), strings.Join(cs, " "))
+}
+
+// ---------------------------------------------------------------- memory access facts (DS / FLAT files)
+
+type lbMemAccess struct {
+	line                 int
+	isLds, isWrite, loop bool
+}
+
+type lbMemFact struct {
+	arch, name string
+	acc        []lbMemAccess
+	callees    []string
+}
+
+var lbReadOnlySliceFuncs = map[string]bool{"insts.BytesToUint32": true, "insts.BytesToUint64": true, "binary.LittleEndian.Uint32": true,
+	"binary.LittleEndian.Uint64": true, "len": true}
+
+// memFact classifies every LDS / storageAccessor access of a method of the DS / FLAT files by direction.
+// Anything whose direction is not evident from the syntax (an LDS slice stored in a variable or handed to
+// an unknown function, the LDS slice itself passed on, …) is a refusal.
+func (a *lbArch) memFact(h *lfHandler) *lbMemFact {
+	fd := a.funcs[h.name]
+	mf := &lbMemFact{arch: h.arch, name: h.name}
+	refuse := func(n ast.Node, format string, args ...any) {
+		fatalf("lanebody (memory): %s %s (%s): %s", a.name, h.name, a.relPos(n), fmt.Sprintf(format, args...))
+	}
+	ldsVars := map[string]bool{}
+	ast.Inspect(fd.Body, func(n ast.Node) bool {
+		if as, ok := n.(*ast.AssignStmt); ok && len(as.Lhs) == 1 && len(as.Rhs) == 1 {
+			if rhs := types.ExprString(as.Rhs[0]); rhs == "u.LDS()" || rhs == "u.lds" {
+				id, ok := as.Lhs[0].(*ast.Ident)
+				if !ok || as.Tok != token.DEFINE {
+					refuse(as, "LDS stored somewhere else than a fresh local variable")
+				}
+				ldsVars[id.Name] = true
+			}
+		}
+		return true
+	})
+	isLds := func(e ast.Expr) bool {
+		r := rootIdent(e)
+		if ldsVars[r] {
+			return true
+		}
+		s := types.ExprString(e)
+		return strings.HasPrefix(s, "u.lds[") || strings.HasPrefix(s, "u.LDS()[")
+	}
+	handled := map[ast.Node]bool{}
+	var walk func(n ast.Node, inLoop bool)
+	add := func(n ast.Node, lds, write, inLoop bool) {
+		mf.acc = append(mf.acc, lbMemAccess{a.fset.Position(n.Pos()).Line, lds, write, inLoop})
+	}
+	walk = func(n ast.Node, inLoop bool) {
+		if n == nil || handled[n] {
+			return
+		}
+		switch x := n.(type) {
+		case *ast.ForStmt:
+			walk(x.Init, inLoop)
+			walk(x.Cond, inLoop)
+			walk(x.Post, inLoop)
+			walk(x.Body, true)
+			return
+		case *ast.RangeStmt:
+			walk(x.X, inLoop)
+			walk(x.Body, true)
+			return
+		case *ast.AssignStmt:
+			if len(x.Rhs) == 1 {
+				if rhs := types.ExprString(x.Rhs[0]); rhs == "u.LDS()" || rhs == "u.lds" {
+					return
+				}
+			}
+			for _, l := range x.Lhs {
+				switch l.(type) {
+				case *ast.IndexExpr, *ast.SliceExpr:
+					if isLds(l) {
+						add(l, true, true, inLoop)
+						if x.Tok != token.ASSIGN {
+							add(l, true, false, inLoop) // lds[a] += v reads too
+						}
+						handled[l] = true
+						// the index expressions are ordinary reads of other things
+						if ie, ok := l.(*ast.IndexExpr); ok {
+							walk(ie.Index, inLoop)
+						}
+						continue
+					}
+				}
+				walk(l, inLoop)
+			}
+			for _, r := range x.Rhs {
+				if se, ok := r.(*ast.SliceExpr); ok && isLds(se) {
+					refuse(se, "an LDS slice is stored in a variable (alias)")
+				}
+				walk(r, inLoop)
+			}
+			return
+		case *ast.CallExpr:
+			name := types.ExprString(x.Fun)
+			switch {
+			case name == "u.storageAccessor.Read":
+				add(x, false, false, inLoop)
+			case name == "u.storageAccessor.Write":
+				add(x, false, true, inLoop)
+			case strings.HasPrefix(name, "u.storageAccessor"):
+				refuse(x, "unknown storage accessor method %s", name)
+			case name == "copy" && len(x.Args) == 2:
+				for k, arg := range x.Args {
+					if isLds(arg) {
+						if _, ok := arg.(*ast.Ident); ok {
+							refuse(x, "copy of the whole LDS")
+						}
+						add(arg, true, k == 0, inLoop)
+						handled[arg] = true
+						if se, ok := arg.(*ast.SliceExpr); ok {
+							walk(se.Low, inLoop)
+							walk(se.High, inLoop)
+						}
+					}
+				}
+			case name == "u.LDS":
+				if len(mf.acc) >= 0 {
+					// u.LDS() outside `x := u.LDS()`: only as len(u.LDS()) or an indexed use (classified below)
+				}
+			default:
+				for _, arg := range x.Args {
+					if isLds(arg) && !lbReadOnlySliceFuncs[name] {
+						refuse(x, "LDS (or a slice of it) passed to %s", name)
+					}
+				}
+				if strings.HasPrefix(name, "u.") {
+					for _, arg := range x.Args {
+						if id, ok := arg.(*ast.Ident); ok && id.Name == "state" {
+							mf.callees = append(mf.callees, strings.TrimPrefix(name, "u."))
+						}
+					}
+				}
+			}
+		case *ast.IndexExpr:
+			if isLds(x) {
+				add(x, true, false, inLoop)
+				walk(x.Index, inLoop)
+				return
+			}
+		case *ast.SliceExpr:
+			if isLds(x) {
+				add(x, true, false, inLoop)
+				walk(x.Low, inLoop)
+				walk(x.High, inLoop)
+				return
+			}
+		case *ast.UnaryExpr:
+			if x.Op == token.AND && isLds(x.X) {
+				refuse(x, "address of an LDS cell taken")
+			}
+		}
+		for _, c := range children(n) {
+			walk(c, inLoop)
+		}
+	}
+	walk(fd.Body, false)
+	// cross-check with the syntactic counters of lanes.go (an access this walk did not see is a refusal)
+	nl, nm := 0, 0
+	for _, ac := range mf.acc {
+		if ac.isLds {
+			nl++
+		} else {
+			nm++
+		}
+	}
+	if nl != h.ldsIn+h.ldsOut || nm != h.memIn+h.memOut {
+		fatalf("lanebody (memory): %s %s (%s:%d): direction scan saw %d LDS / %d memory accesses, lanes.go counted %d / %d",
+			h.arch, h.name, h.file, h.line, nl, nm, h.ldsIn+h.ldsOut, h.memIn+h.memOut)
+	}
+	sort.Strings(mf.callees)
+	return mf
+}
+
+func lbWriteMemFacts(b *strings.Builder, facts []*lbMemFact) {
+	b.WriteString("/-- every LDS / memory access of the methods of the DS / FLAT files, with its direction -/\ndef memFacts : List MemFact := [\n")
+	for i, f := range facts {
+		sep := ","
+		if i == len(facts)-1 {
+			sep = ""
+		}
+		var as []string
+		for _, ac := range f.acc {
+			as = append(as, fmt.Sprintf("⟨%d, %s, %s, %s⟩", ac.line, leanBool(ac.isLds), leanBool(ac.isWrite), leanBool(ac.loop)))
+		}
+		fmt.Fprintf(b, "  { arch := %s, name := %s, accesses := [%s], callees := %s }%s\n", leanStr(f.arch), leanStr(f.name), strings.Join(as, ", "), leanStrList(f.callees), sep)
+	}
+	b.WriteString("]\n\n")
 }
